@@ -73,6 +73,9 @@ pub fn run_check(id: &str, report: &mut Report, budget: Duration) -> bool {
             e1::run(id, report, budget);
             let n = e4::run_deep_c05(report);
             report.add("traces_validated_against_impl", n);
+            let n = e3::parked_reply_survives_close(report);
+            report.add("traces_validated_against_impl", n);
+            report.set("reply_then_end_of_stream_cases", n);
         }
         "C18" => {
             e1::run(id, report, budget);
